@@ -145,7 +145,7 @@ class Ctx:
         d = hashlib.sha1(json.dumps(obj, sort_keys=True, default=str).encode()).hexdigest()[:12]
         return os.path.join(os.environ.get("VERIF_REPLAY_DIR") or os.path.join(VERIF, "replay"), "%s-%s.json" % (self.pid, d))
 
-    def violation(self, kind, scenario, trace=None, detail=""):
+    def violation(self, kind, scenario, trace=None, detail="", sig=None):
         """Record a violation unless an open known finding matches (matcher = finding['match'])."""
         obj = {"property": self.pid, "check": kind, "scenario": scenario, "trace": trace, "detail": detail}
         for f in self.findings:
@@ -155,7 +155,9 @@ class Ctx:
                 self.known_hits.setdefault(f["id"], [f, 0])[1] += 1
                 return False
         path = self.replay_path(obj)
-        if len(self.violations) < 25:
+        self.sigs = getattr(self, "sigs", {})
+        self.sigs[sig or kind] = self.sigs.get(sig or kind, 0) + 1
+        if len(self.violations) < 25 or self.sigs[sig or kind] <= 3:
             os.makedirs(os.path.dirname(path), exist_ok=True)
             with open(path, "w") as fh:
                 json.dump(obj, fh, indent=1, default=str)
@@ -197,6 +199,8 @@ class Ctx:
                 print("VIOLATION property=%s replay=%s" % (self.pid, path))
                 print("  [%s] %s" % (kind, str(detail)[:300]))
         if self.violations:
+            for k, n in sorted(getattr(self, "sigs", {}).items(), key=lambda kv: -kv[1]):
+                print("  %5d x %s" % (n, k))
             print("%s: %d violating scenario(s)" % (self.pid, len(self.violations)))
             return 1
         print("%s %s: ok  states=%d traces=%d events=%d nontrivial=%d wall=%.1fs" % (
@@ -239,6 +243,15 @@ def main(run_fn, pid):
     tier = a.tier if a.tier in ("quick", "thorough") else "quick"
     seed = int(os.environ.get("VERIF_SEED", "0") or 0)
     ctx = Ctx(pid, tier, seed)
+    if not a.replay:
+        # replay files of earlier runs of this property are stale by definition
+        import glob
+        rdir = os.environ.get("VERIF_REPLAY_DIR") or os.path.join(VERIF, "replay")
+        for old in glob.glob(os.path.join(rdir, "%s-*.json" % pid)):
+            try:
+                os.remove(old)
+            except OSError:
+                pass
     try:
         rc = run_fn(ctx, a.replay)
     except (Machinery, tlc.TLCError) as e:
